@@ -4,7 +4,6 @@ from .ops_c06 import OPS
 
 PROP, BIN, RUNMOD, RUNFN = "C06", "c06", "RunC06", "run_C06"
 MODES = [True, False]
-LEVEL = "other"   # until the Model = Spec theorems of this property are merged (placeholder theorem only)
 
 
 def gen_z(rng, op, w, n, k):
